@@ -102,7 +102,7 @@ Definition assert_max_spread_none (max_spread : option Z) (ret_plus_fees spread 
   let ms := Z.min (match max_spread with Some m => m | None => DEFAULT_SPREAD end) MAX_SPREAD_CAP in
   do den <- padd P128 ret_plus_fees spread;
   do q <- dec_from_ratio P256 spread den;
-  ensure (negb (ms <? q)) E_OTHER.
+  ensure (negb (ms <? q)) E_SLIPPAGE.
 
 Definition swap (p : pool) (i j x : Z) (max_spread : option Z) : outcome (pool * effects) :=
   (* reserves without the protocol fee and, for the offer asset, without the amount just received *)
